@@ -92,3 +92,17 @@ func headerShapes() []Shape {
 	}
 	return out
 }
+
+// usesTypeParamTypes: shapes that exist to type-check generic signatures; the
+// wiring rules (C03/C04/C05) compare types across differently-parameterised
+// generic declarations and skip them.
+func usesTypeParamTypes(sh Shape) bool {
+	for _, is := range sh.Ifaces {
+		for _, m := range is.Methods {
+			if m.TPType {
+				return true
+			}
+		}
+	}
+	return false
+}
